@@ -415,6 +415,20 @@ pub open spec fn qr_free_name(n: Seq<char>) -> bool { qr_free(n) }
 //@     }
 //@end
 
+/// fresh names (fresh_ok) against a list that has every variable name of the terms: the side conditions of parts_ok
+pub proof fn lemma_fresh_parts(terms: Seq<asp::Term>, names: Seq<String>, taken: Seq<Variable>, variant: Seq<char>)
+    requires fresh_ok(names, taken, variant, terms.len() as nat), forall|k: VKey| terms_in(terms, k) ==> has_name(taken, k.0),
+    ensures
+        distinct_names(names), names.len() == terms.len(),
+        forall|i: int, j: int, k: VKey| 0 <= i < names.len() && 0 <= j < terms.len() && #[trigger] asp_in_term(terms[j], k) ==> k != #[trigger] zkey(names[i]),
+{
+    assert forall|i: int, j: int, k: VKey| 0 <= i < names.len() && 0 <= j < terms.len() && #[trigger] asp_in_term(terms[j], k) implies k != #[trigger] zkey(names[i]) by {
+        assert(terms_in(terms, k));
+        let q = choose|q: int| 0 <= q < taken.len() && (#[trigger] taken[q]).name@ == k.0;
+        assert(names[i]@ != taken[q].name@);
+    }
+}
+
 pub mod tb2 {
 use vstd::prelude::*;
 use super::asp;
@@ -936,138 +950,11 @@ pub mod asp {
     use vstd::prelude::*;
     use vstd::std_specs::iter::IteratorSpec;
     use super::{IndexSet, seq_extend, seq_insert, lemma_seq_extend_contains, VKey, asp_in_term, asp_var_key, has_key, terms_in, af_in,
-        lemma_has_key_extend, lemma_has_key_contains, head_pred, head_args, head_in, body_in, rule_in};
+        lemma_has_key_extend, lemma_has_key_contains, head_pred, head_args, head_in, body_in, rule_in, var_occ, terms_var_occ, lemma_extend_len};
     verus! {
     broadcast use {super::axiom_string_ext, super::axiom_vec_ext};
 //@include units/asp_types.inc
-impl Term {
-//@fn src/syntax_tree/asp/mini_gringo.rs :: impl Term :: fn variables
-//@ .ret r
-//@ .spec
-//@     ensures forall|k: VKey| asp_in_term(*self, k) ==> has_key(r@, k),
-//@     decreases self,
-//@ .hint before "match &self"
-//@     proof {
-//@         assert forall|a: Seq<Variable>, b: Seq<Variable>, k: VKey| has_key(a, k) || has_key(b, k) implies #[trigger] has_key(seq_extend(a, b), k) by { lemma_has_key_extend(a, b, k); }
-//@         if let Term::Variable(v) = self { assert(seq![*v].contains(*v)) by { assert(seq![*v][0] == *v); } lemma_has_key_contains(seq![*v], *v); }
-//@         assert forall|k: VKey| #[trigger] asp_in_term(*self, k) == (match *self {
-//@             Term::PrecomputedTerm(_) => false,
-//@             Term::Variable(x) => k == asp_var_key(x),
-//@             Term::UnaryOperation { op, arg } => asp_in_term(*arg, k),
-//@             Term::BinaryOperation { op, lhs, rhs } => asp_in_term(*lhs, k) || asp_in_term(*rhs, k) }) by {}
-//@     }
-//@end
-}
-impl Atom {
-//@fn src/syntax_tree/asp/mini_gringo.rs :: impl Atom :: fn variables
-//@ .ret r
-//@ .spec
-//@     ensures forall|k: VKey| terms_in(self.terms@, k) ==> has_key(r@, k),
-//@ .loop 1 as it
-//@     invariant
-//@         0 <= it.index@ <= self.terms@.len(),
-//@         forall|j: int, k: VKey| 0 <= j < it.index@ && #[trigger] asp_in_term(self.terms@[j], k) ==> has_key(vars@, k),
-//@ .hint before "vars.extend(term.variables())"
-//@     proof {
-//@         assert forall|a: Seq<Variable>, b: Seq<Variable>, k: VKey| has_key(a, k) || has_key(b, k) implies #[trigger] has_key(seq_extend(a, b), k) by { lemma_has_key_extend(a, b, k); }
-//@     }
-//@end
-}
-impl Literal {
-//@fn src/syntax_tree/asp/mini_gringo.rs :: impl Literal :: fn variables
-//@ .ret r
-//@ .spec
-//@     ensures forall|k: VKey| terms_in(self.atom.terms@, k) ==> has_key(r@, k),
-//@end
-}
-impl Comparison {
-//@fn src/syntax_tree/asp/mini_gringo.rs :: impl Comparison :: fn variables
-//@ .ret r
-//@ .spec
-//@     ensures forall|k: VKey| asp_in_term(self.lhs, k) || asp_in_term(self.rhs, k) ==> has_key(r@, k),
-//@ .hint before "let mut vars = self.lhs.variables();"
-//@     proof {
-//@         assert forall|a: Seq<Variable>, b: Seq<Variable>, k: VKey| has_key(a, k) || has_key(b, k) implies #[trigger] has_key(seq_extend(a, b), k) by { lemma_has_key_extend(a, b, k); }
-//@     }
-//@end
-}
-impl AtomicFormula {
-//@fn src/syntax_tree/asp/mini_gringo.rs :: impl AtomicFormula :: fn variables
-//@ .ret r
-//@ .spec
-//@     ensures forall|k: VKey| af_in(*self, k) ==> has_key(r@, k),
-//@end
-}
-impl Atom {
-//@fn src/syntax_tree/asp/mini_gringo.rs :: impl Atom :: fn predicate
-//@ .ret r
-//@ .spec
-//@     ensures r.symbol@ == self.predicate_symbol@, r.arity == self.terms@.len(),
-//@end
-}
-impl Head {
-//@fn src/syntax_tree/asp/mini_gringo.rs :: impl Head :: fn predicate
-//@ .ret r
-//@ .spec
-//@     ensures r is Some == !(self is Falsity), r is Some ==> r->Some_0.symbol@ == head_pred(*self) && r->Some_0.arity == head_args(*self).len(),
-//@end
-//@fn src/syntax_tree/asp/mini_gringo.rs :: impl Head :: fn terms
-//@ .ret r
-//@ .spec
-//@     ensures r is Some == !(self is Falsity), r is Some ==> r->Some_0@ == head_args(*self),
-//@end
-//@fn src/syntax_tree/asp/mini_gringo.rs :: impl Head :: fn arity
-//@ .ret r
-//@ .spec
-//@     ensures r == head_args(*self).len(),
-//@end
-//@fn src/syntax_tree/asp/mini_gringo.rs :: impl Head :: fn variables
-//@ .ret r
-//@ .spec
-//@     ensures forall|k: VKey| head_in(*self, k) ==> has_key(r@, k),
-//@end
-}
-impl Body {
-//@fn src/syntax_tree/asp/mini_gringo.rs :: impl Body :: fn variables
-//@ .ret r
-//@ .spec
-//@     ensures forall|k: VKey| body_in(self.formulas@, k) ==> has_key(r@, k),
-//@ .loop 1 as it
-//@     invariant
-//@         0 <= it.index@ <= self.formulas@.len(),
-//@         forall|j: int, k: VKey| 0 <= j < it.index@ && #[trigger] af_in(self.formulas@[j], k) ==> has_key(vars@, k),
-//@ .hint before "vars.extend(formula.variables())"
-//@     proof {
-//@         assert forall|a: Seq<Variable>, b: Seq<Variable>, k: VKey| has_key(a, k) || has_key(b, k) implies #[trigger] has_key(seq_extend(a, b), k) by { lemma_has_key_extend(a, b, k); }
-//@     }
-//@end
-}
-impl Program {
-//@fn src/syntax_tree/asp/mini_gringo.rs :: impl Program :: fn variables
-//@ .ret r
-//@ .spec
-//@     ensures forall|i: int, k: VKey| 0 <= i < self.rules@.len() && #[trigger] rule_in(self.rules@[i], k) ==> has_key(r@, k),
-//@ .loop 1 as it
-//@     invariant
-//@         0 <= it.index@ <= self.rules@.len(),
-//@         forall|j: int, k: VKey| 0 <= j < it.index@ && #[trigger] rule_in(self.rules@[j], k) ==> has_key(vars@, k),
-//@ .hint before "vars.extend(rule.variables())"
-//@     proof {
-//@         assert forall|a: Seq<Variable>, b: Seq<Variable>, k: VKey| has_key(a, k) || has_key(b, k) implies #[trigger] has_key(seq_extend(a, b), k) by { lemma_has_key_extend(a, b, k); }
-//@     }
-//@end
-}
-impl Rule {
-//@fn src/syntax_tree/asp/mini_gringo.rs :: impl Rule :: fn variables
-//@ .ret r
-//@ .spec
-//@     ensures forall|k: VKey| rule_in(*self, k) ==> has_key(r@, k),
-//@ .hint before "let mut vars = self.head.variables();"
-//@     proof {
-//@         assert forall|a: Seq<Variable>, b: Seq<Variable>, k: VKey| has_key(a, k) || has_key(b, k) implies #[trigger] has_key(seq_extend(a, b), k) by { lemma_has_key_extend(a, b, k); }
-//@     }
-//@end
-}
+//@include units/asp_vars.inc
     } // verus!
 }
 impl std::fmt::Display for Variable { fn fmt(&self, _f: &mut std::fmt::Formatter<'_>) -> std::fmt::Result { Ok(()) } }
